@@ -185,7 +185,7 @@ def run(ctx, rep):
     prod = prog.by_path.get("classic::crypto_pwhash::crypto_pwhash_str", []) + cm.find_method(prog, "pwhash::PwHash", "to_string")
     cons = prog.by_path.get("classic::crypto_pwhash::crypto_pwhash_str_verify", []) + prog.by_path.get("classic::crypto_pwhash::crypto_pwhash_str_needs_rehash", [])
     enc = [prog.by_key[k] for k in prog.reach_fns(prod) if any(c.path == "base64::Engine::encode" for c in prog.by_key[k].calls())
-           and any(c.path in ("std::fmt::format", "alloc::fmt::format") for c in prog.by_key[k].calls())]
+           and any(c.path in ("std::fmt::format", "alloc::fmt::format") or c.name == "write_fmt" for c in prog.by_key[k].calls())]
     # the parser: the function whose view (private helpers folded in) base64-decodes and that hands back a
     # crate-local record (Result<Record, _>), wherever the decoding itself lives
     par = []
